@@ -81,6 +81,141 @@ def sha256(path):
     return h.hexdigest()
 
 
+def concurrent_stage(ctx, res, tier, seed, scratch):
+    """Two or three builds released at the same moment against one destination (the 'error' a build meets is another build):
+    whatever each reports, the destination afterwards is one of the complete archives or its previous content."""
+    d = os.path.join(scratch, "concurrent")
+    os.makedirs(d, exist_ok=True)
+    rounds = 600 if tier == "thorough" else 80
+    try:
+        p = ctx.worker(["--concurrent", str(rounds), "--dest", d], cwd=d, timeout=900)
+    except subprocess.TimeoutExpired:
+        res.add_inconclusive("concurrent-builds-timeout")
+        return
+    seen = 0
+    for line in p.stdout.splitlines():
+        try:
+            r = json.loads(line)
+        except ValueError:
+            continue
+        if "setup" in r:
+            res.add_inconclusive("concurrent-builds-setup-failed")
+            continue
+        seen += 1
+        res.add_counter("concurrent_build_rounds", 1)
+        res.add_counter("concurrent_builds_" + ("all_ok" if all(x == "ok" for x in r["statuses"]) else "some_err"), 1)
+        res.add_counter("concurrent_dest_" + r["dest"].split("-")[0], 1)
+        ok_any = any(x == "ok" for x in r["statuses"])
+        bad = None
+        if r["dest"] == "other":
+            bad = ("mixed", "the destination is neither one of the complete archives nor the previous content: " + "; ".join(r["complaints"])[:300])
+        elif r["dest"] == "absent" and (r["had_old"] or ok_any):
+            bad = ("absent", "the destination is gone")
+        elif r["dest"] == "old" and ok_any:
+            bad = ("old-after-ok", "a build reported success and the destination still holds the previous content")
+        elif any(x.startswith("panic") for x in r["statuses"]):
+            bad = ("panic", "a build panicked: " + str(r["statuses"]))
+        key = f"concurrent-builds|{r['threads']}|{'old' if r['had_old'] else 'fresh'}"
+        res.classes.add(key)
+        if bad:
+            sig = f"concurrent-builds|dest-{bad[0]}"
+            res.add_violation(sig, f"{r['threads']} builds at once against one destination ({', '.join(r['scenarios'])}; statuses {r['statuses']}): {bad[1]}",
+                              r, {"property": PROP, "tier": tier, "seed": int(seed), "scenario": "concurrent-builds", "point": {"kind": "concurrent", "round": r["round"]}})
+            res.verdicts["viol"] += 1
+        else:
+            res.verdicts["held"] += 1
+        res.cases += 1
+    if seen < rounds:
+        res.add_inconclusive("concurrent-builds-incomplete")
+        res.notes.append(f"concurrent builds: {seen} of {rounds} rounds reported; worker exit {p.returncode}: {(p.stderr or '')[-300:]}")
+
+
+def rodir_stage(ctx, res, scen, tier, seed, scratch):
+    """The caller may write the archive file but not create files next to it (directory 0555, file 0666, caller uid 65534):
+    a build there either fails and leaves the previous archive as it was, or produces the complete new one - also when the
+    write-size limit cuts it short. (Only expressible when the supervisor runs as root: it needs another uid to drop to.)"""
+    if os.geteuid() != 0:
+        res.add_counter("rodir_stage_skipped_supervisor_not_root", 1)
+        return
+    limits = [None, ("fsize-kill", 200), ("fsize-ign", 200), ("fsize-ign", 3000), ("fsize-kill", 9000)]
+    if tier == "thorough":
+        limits += [(m, l) for m in ("fsize-kill", "fsize-ign") for l in (1, 33, 512, 1000, 2048, 4096, 20000)]
+    jobs = [(n, lim) for n in ("build-v1-present-small", "build-v2-present-big", "build-v4-present-small", "build-v3-present-big") if n in scen for lim in limits]
+
+    def one(job):
+        name, lim = job
+        sc = scen[name]
+        tag = "plain" if lim is None else f"{lim[0]}-{lim[1]}"
+        rd = os.path.join(scratch, "rodir", f"{name}-{tag}")
+        shutil.rmtree(rd, ignore_errors=True)
+        os.makedirs(rd)
+        dest = os.path.join(rd, "dest.mpq")
+        shutil.copyfile(sc["old"], dest)
+        os.chmod(dest, 0o666)
+        os.chmod(rd, 0o555)
+        cmd = [ctx.bin_for(sc), "--seed", str(ctx.seed), "--scenario", sc.get("base", sc["name"]), "--variant", sc.get("variant", "full"), "--dest", dest]
+        if lim is not None:
+            sig = "--ignore-signal=XFSZ" if lim[0] == "fsize-ign" else "--default-signal=XFSZ"
+            cmd = ["prlimit", f"--fsize={lim[1]}", "--core=0", "env", sig] + cmd
+        out = {"scenario": name, "tag": tag}
+        try:
+            p = subprocess.run(cmd, cwd="/", env=ctx.env, stdout=subprocess.PIPE, stderr=subprocess.PIPE, text=True, errors="replace", timeout=60,
+                               user=65534, group=65534, extra_groups=[])
+        except (subprocess.TimeoutExpired, OSError, ValueError) as ex:
+            os.chmod(rd, 0o755)
+            out["inconc"] = f"run failed: {type(ex).__name__}"
+            return out
+        os.chmod(rd, 0o755)
+        st, msg = status_of(p.stdout)
+        if p.returncode < 0:
+            st = f"KILLED-{-p.returncode}"
+        out["status"], out["msg"] = st, msg
+        left = sorted(x for x in os.listdir(rd) if x != "dest.mpq")
+        out["leftovers"] = left
+        if not os.path.exists(dest):
+            out["state"] = "absent"
+        else:
+            dg = sha256(dest)
+            if dg == sha256(sc["old"]):
+                out["state"] = "old"
+            else:
+                ok, why = ctx.verify(sc, dest, dg)
+                out["state"] = "new-complete" if ok else "partial"
+                out["why"] = why
+                out["size"] = os.path.getsize(dest)
+        shutil.rmtree(rd, ignore_errors=True)
+        return out
+
+    with ThreadPoolExecutor(max_workers=sup.NCPU) as ex:
+        outs = list(ex.map(one, jobs))
+    for r in outs:
+        res.cases += 1
+        if r.get("inconc"):
+            res.add_inconclusive("rodir-" + r["inconc"])
+            continue
+        res.add_counter("rodir_runs", 1)
+        res.add_counter(f"rodir_status_{r['status']}", 1)
+        res.add_counter(f"rodir_dest_{r['state']}", 1)
+        st, state = r["status"], r["state"]
+        bad = None
+        if state in ("partial", "absent"):
+            bad = f"dest-{state}"
+        elif st == "BUILD-OK" and state != "new-complete":
+            bad = "ok-but-old"
+        elif st == "BUILD-ERR" and state != "old":
+            bad = "err-but-dest-changed"
+        elif st == "BUILD-PANIC":
+            bad = "panic"
+        res.classes.add(f"rodir|{r['scenario']}|{r['tag']}")
+        if bad:
+            res.verdicts["viol"] += 1
+            res.add_violation(f"unwritable-directory|{bad}|{'limit' if r['tag'] != 'plain' else 'plain'}",
+                              f"{r['scenario']} as uid 65534 with the destination (0666) in a directory it may not write (0555), {r['tag']}: worker says {st} {r.get('msg', '')[:120]}; destination afterwards: {state} {r.get('why', '')[:200]}",
+                              r, {"property": PROP, "tier": tier, "seed": int(seed), "scenario": r["scenario"], "point": {"kind": "rodir", "tag": r["tag"]}})
+        else:
+            res.verdicts["held"] += 1
+
+
 def all_scenarios():
     out = []
     for v in (1, 2, 3, 4):
@@ -616,6 +751,8 @@ def run(tier, seed, scratch, t0):
     for n, v in scen_ev.items():
         if "N" in v:
             v["points_fired"] = fired_by_sc.get(n, 0)
+    concurrent_stage(ctx, res, tier, seed, scratch)
+    rodir_stage(ctx, res, scen, tier, seed, scratch)
     res.add_counter("scenarios_run", len(scen))
     res.add_counter("verify_processes_run", len(ctx.verify_cache))
     extra = {"scenarios": scen_ev, "set": SET, "modes": MODES + ["fsize-ign", "fsize-kill"] + [f"{a}+{b}" for a in ("ENOSPC", "EIO") for b in ("kill", "EIO")]}
@@ -679,6 +816,28 @@ def replay(rp, scratch):
     r = rp["replay"]
     binpath = sup.build("vh-mpq", "c12")
     ctx = Ctx(binpath, r["seed"], scratch, ffi_bin=sup.build("vh-ffi", "c12_ffi"))
+    if r.get("point", {}).get("kind") in ("concurrent", "rodir"):
+        # these stages are re-run whole (interleavings are not replayable one by one; the unprivileged runs are few)
+        res = sup.Result(PROP)
+        if r["point"]["kind"] == "concurrent":
+            concurrent_stage(ctx, res, r["tier"], r["seed"], scratch)
+        else:
+            scen = {}
+            for n in ("build-v1-present-small", "build-v2-present-big", "build-v4-present-small", "build-v3-present-big"):
+                sc = prepare(ctx, n)
+                if not sc.get("failed"):
+                    scen[n] = sc
+            rodir_stage(ctx, res, scen, r["tier"], r["seed"], scratch)
+        print(f"REPLAY stage={r['point']['kind']} runs={res.cases} counters={json.dumps(res.counters)}")
+        hit = False
+        for sig, w in res.violations.items():
+            print(f"REPLAY violation sig={sig} what={str(w['what'])[:400]}")
+            hit = hit or sig == rp.get("signature")
+        if hit:
+            print(f"VIOLATION property={PROP} replay=(reproduced) signature={rp.get('signature')}")
+            return sup.EXIT_VIOLATION
+        print("REPLAY did not reproduce the recorded signature")
+        return sup.EXIT_HELD
     sc = prepare(ctx, r["scenario"])
     if sc.get("failed"):
         print(f"REPLAY scenario {r['scenario']} could not be prepared: {sc['failed']}")
